@@ -1,8 +1,9 @@
 #!/bin/bash
 # usage: tools/try_patch.sh <patch.diff> <check> [more checks] : run checks against a scratch COPY of /repo/strax with the
 # patch applied (via DST_STRAX_ROOT), leaving /repo untouched (so background soaks on /repo are not disturbed).
+# The copy always lives at the same path and keeps file times, so the numba cache of unpatched files stays valid.
 p=$(realpath $1); shift
-d=$(mktemp -d /tmp/mut/tp_XXXXXX); cp -r /repo/strax $d/strax; find $d -name __pycache__ -prune -exec rm -rf {} +
+d=/tmp/mut/scratch_tp; rm -rf $d; mkdir -p $d; cp -rp /repo/strax $d/strax; find $d -name __pycache__ -prune -exec rm -rf {} +
 (cd $d && patch -p1 -s < $p) || { echo "PATCH FAILED"; rm -rf $d; exit 2; }
 for chk in "$@"; do
   cd /verif && DST_STRAX_ROOT=$d DST_OUT_DIR=$d/out timeout 1200 ./check $chk --budget-s ${BUDGET:-80} 2>&1 | grep -E "^VIOLATION|^violation:|HARNESS|\[dst\] C..:" | cut -c1-260 | head -${LINES_MAX:-4}
